@@ -275,6 +275,23 @@ type ReadAllCase struct {
 	Limit uint64 `json:"limit"`
 	Short []int  `json:"short"` // the underlying reader delivers at most this many bytes per call (cycled)
 	Via   int    `json:"via"`   // 0 io.ReadAll, 1 io.Copy into a bytes.Buffer, 2 io.CopyBuffer with a small buffer, 3 bufio.Reader
+	// FailAfter >= 0: first io.Copy the reader into a writer that accepts
+	// FailAfter bytes in total and then fails (short count + error), and only
+	// then drain the rest with the helper above.  The budget is charged with
+	// what was taken from the source, whatever the destination did with it.
+	FailAfter int `json:"fail_after"`
+}
+
+type failingWriter struct{ left int }
+
+func (w *failingWriter) Write(p []byte) (int, error) {
+	if len(p) <= w.left {
+		w.left -= len(p)
+		return len(p), nil
+	}
+	n := w.left
+	w.left = 0
+	return n, errInjected
 }
 
 func checkReadAll(c ReadAllCase) error {
@@ -286,6 +303,21 @@ func checkReadAll(c ReadAllCase) error {
 	r := ioutil.LimitReader(under, c.Limit)
 	var got []byte
 	var err error
+	if c.FailAfter >= 0 {
+		_, _ = io.Copy(&failingWriter{left: c.FailAfter}, r)
+		_, _ = io.ReadAll(r)
+		// Only the accounting at the source is asserted on this path.
+		for i, a := range under.asked {
+			if uint64(a) > c.Limit-uint64(under.gave[i]) {
+				return fmt.Errorf("limit %d, copy into a writer failing after %d bytes, then drained: after %d bytes taken from the source it was given a %d-byte buffer", c.Limit, c.FailAfter, under.gave[i], a)
+			}
+		}
+		if uint64(under.pos) > c.Limit {
+			return fmt.Errorf("limit %d, copy into a writer failing after %d bytes, then drained: %d bytes were taken from the source", c.Limit, c.FailAfter, under.pos)
+		}
+		vp.Class("readall:copy-into-failing-writer-then-drain")
+		return nil
+	}
 	switch c.Via {
 	case 1:
 		var buf bytes.Buffer
@@ -336,10 +368,11 @@ var readAllProp = vp.Register(vp.Prop[ReadAllCase]{
 	Gen: func(t *rapid.T) ReadAllCase {
 		l := rapid.IntRange(0, 3000).Draw(t, "len")
 		return ReadAllCase{
-			Len:   l,
-			Limit: rapid.SampledFrom([]uint64{0, 1, 511, 512, 513, uint64(max(l-1, 0)), uint64(l), uint64(l + 1), uint64(l / 2), 1 << 40, math.MaxUint64}).Draw(t, "limit"),
-			Short: rapid.SliceOfN(rapid.IntRange(1, 700), 0, 4).Draw(t, "short"),
-			Via:   rapid.IntRange(0, 3).Draw(t, "via"),
+			Len:       l,
+			Limit:     rapid.SampledFrom([]uint64{0, 1, 511, 512, 513, uint64(max(l-1, 0)), uint64(l), uint64(l + 1), uint64(l / 2), 1 << 40, math.MaxUint64}).Draw(t, "limit"),
+			Short:     rapid.SliceOfN(rapid.IntRange(1, 700), 0, 4).Draw(t, "short"),
+			Via:       rapid.IntRange(0, 3).Draw(t, "via"),
+			FailAfter: rapid.SampledFrom([]int{-1, -1, -1, 0, 1, 3, 9, 100, 511, 513}).Draw(t, "failafter"),
 		}
 	},
 	Check: checkReadAll,
